@@ -422,6 +422,12 @@ func genAr1415(c *Ctx) {
 	}
 	c.Case(false, fmt.Sprintf("ar sum i %d | -", hourNs1415))
 	c.Case(false, fmt.Sprintf("ar avg f %d | -", hourNs1415))
+	// sub-second alignment periods: datasources whose non-empty periods differ within one second must not be paired
+	for _, red := range []string{"sum", "avg", "min", "max", "count"} {
+		c.Case(true, fmt.Sprintf("rd %s 250000000 | i+ 0:1,250000000:2,750000000:3,1000000000:4 | i+ 0:5,500000000:7,750000000:9,1000000000:11", red))
+		c.Case(true, fmt.Sprintf("rd %s 250000000 | i+ 250000000:2,1250000000:3 | i+ 500000000:7,1250000000:9 | i+ 750000000:1,1250000000:5", red))
+		c.Case(true, fmt.Sprintf("rd %s 1000000 | i+ 0:1,1000000:2,3000000:3 | i+ 0:5,2000000:7,3000000:9", red))
+	}
 	// large integers (above 2^53): integer sum / min / max / count stay exact (no detour through float64)
 	for _, base := range []int64{1 << 53, (1 << 60) + 1, -(1 << 55) - 3} {
 		for _, red := range []string{"sum", "min", "max"} {
